@@ -292,7 +292,11 @@ def run(summ, seed, per_def, corpus=None):
         if py[0] == 'raise':
             hist['raise'] += 1
         hist['kinds'][k] = hist['kinds'].get(k, 0) + 1
-    # Coq side
+    # Coq side: the float interpreter and the generated files must be compiled
+    okm, logm = vlib.make(['lib/ExprF.vo', 'gen/GenR2.vo', 'gen/GenR3.vo', 'gen/GenSE2.vo', 'gen/GenSE3.vo'])
+    if not okm:
+        return {'evaluations': 0, 'agree': 0, 'exact_components': 0, 'components': 0, 'disagreements': [], 'hist': hist,
+                'coq_errors': [{'file': 'make lib/ExprF.vo gen/*.vo', 'rc': 2, 'out': logm[-1500:]}]}
     CH = 400
     srcs = []
     for ci in range(0, len(rows), CH):
